@@ -695,6 +695,9 @@ def getitem(eng, v, k):
         if kk is None:
             eng.maybe_raise(False, 'KeyError')
             raise EngineError('ill-typed key in spec')
+        if (isinstance(v, Box) and getattr(v, 'counter', False)) or getattr(ty, 'counter', False):
+            # collections.Counter: reading a missing key gives 0 and does not insert it
+            return wrap(ty.v, z3.If(ty.has(e, kk), ty.at(e, kk), z3.IntVal(0)))
         if isinstance(v, Box) and v.default is not None and not eng.spec:
             dv = to_z3(v.default(eng), ty.v)
             v.e = z3.If(ty.has(e, kk), e, ty.insert(e, kk, dv))
